@@ -252,3 +252,44 @@ func (sc *Scenario) Shape() string {
 	}
 	return fmt.Sprintf("%s/%dx%d/p%d/w%d-%d", sc.Engine, len(sc.Topo.Sources), len(sc.Topo.Dests), np, sc.Topo.DLQWindow, sc.Topo.DLQThresh)
 }
+
+// FanoutUnabsorbed rewrites sc into the family "fan-out where ONE branch rejects
+// a record mid-batch (its attached processor errors) under a DLQ that cannot
+// absorb it (no tolerance, or a failing DLQ write), while the same branch still
+// has the records behind the rejected one in flight at a slow destination and
+// the sibling branch votes the whole batch at once". After the failed
+// dead-lettering nothing behind the rejected record may be acknowledged or
+// stored.
+func (g *Gen) FanoutUnabsorbed(sc *Scenario) {
+	sc.Topo.Sources = sc.Topo.Sources[:1]
+	sc.Records = sc.Records[:1]
+	sc.Topo.Sources[0].Src.Batches = []int{g.pick(6, 8, 12)}
+	sc.Topo.Sources[0].Procs = nil
+	sc.Topo.PipeProcs = nil
+	sc.Cond = nil
+	for len(sc.Topo.Dests) < 2 {
+		c := rig.ConnSpec{ID: fmt.Sprintf("d%d", len(sc.Topo.Dests))}
+		c.Dst.Seed = g.R.Uint64()
+		sc.Topo.Dests = append(sc.Topo.Dests, c)
+	}
+	sc.Topo.Dests = sc.Topo.Dests[:2]
+	at := 1 + g.R.Intn(4)
+	a := g.R.Intn(2) // the branch with the erroring processor
+	b := 1 - a
+	pe := rig.ProcSpec{ID: "pe"}
+	pe.Script.Kind = map[string]string{rig.Lin{Src: "s0", Idx: at}.String(): rig.PKError}
+	sc.Topo.Dests[a].Procs = []rig.ProcSpec{pe}
+	sc.Topo.Dests[a].Dst = rig.DstScript{Seed: g.R.Uint64(), LatencyAt: map[int]int{at + 1: g.pick(4000, 9000)}}
+	sc.Topo.Dests[b].Procs = nil
+	sc.Topo.Dests[b].Dst = rig.DstScript{Seed: g.R.Uint64(), LatencyUs: []int{g.pick(800, 1500, 3000)}}
+	if g.R.Intn(2) == 0 {
+		sc.Topo.DLQWindow, sc.Topo.DLQThresh = 1, 0
+	} else {
+		// DLQ tolerates everything but its write fails
+		sc.Topo.DLQWindow, sc.Topo.DLQThresh = 0, 0
+		sc.Topo.DLQ.NackPermille = 0
+		sc.Topo.DLQ.NackIdx = map[int]bool{at: true}
+	}
+	sc.RecMaxRetries = 1
+	sc.Healthy = false
+}
